@@ -361,6 +361,10 @@ func genState(g *GenCtx) {
 	}
 	users := []string{"u", "v", "", "root"}
 	cmds := []string{"ls", "ls ", "cat /etc/passwd", "", "LS"}
+	type pair struct {
+		user string
+		key  int
+	}
 	for c := 0; c < n; c++ {
 		g.Op("new")
 		base := uint64(1000 + g.R.Intn(5)*1000)
@@ -368,11 +372,13 @@ func genState(g *GenCtx) {
 			base = uint64(1) << 33
 		}
 		nu, nk := 1+g.R.Intn(2), 1+g.R.Intn(3)
-		var grants []genGrant
-		ng := g.R.Intn(7)
-		for i := 0; i < ng; i++ {
+		// bookkeeping only (which pairs have stored grants, which grants each session got): it
+		// steers requests towards interesting targets and decides nothing
+		stored := map[pair][]genGrant{}
+		var sessGrants [][]genGrant
+		newGrant := func() {
 			gg := genGrant{
-				gtype: Pick(g.R, []int{1, 2, 2, 2, 3, 4, 5, 0, 9}),
+				gtype: Pick(g.R, []int{1, 2, 2, 2, 2, 3, 4, 5, 0, 9}),
 				start: base + uint64(g.R.Intn(3))*100,
 				user:  users[g.R.Intn(nu)],
 				key:   1 + g.R.Intn(nk),
@@ -385,52 +391,80 @@ func genState(g *GenCtx) {
 			if gg.gtype != 2 && g.R.Chance(2, 3) {
 				gg.cmd = ""
 			}
-			grants = append(grants, gg)
+			g.Op("grant %s", gg.words())
+			p := pair{gg.user, gg.key}
+			stored[p] = append(stored[p], gg)
 		}
-		nsess := 0
-		emitGrant := func(gg genGrant) { g.Op("grant %s", gg.words()) }
-		pending := append([]genGrant{}, grants...)
-		// most grants first, some interleaved with logins
-		for len(pending) > 0 && g.R.Chance(4, 5) {
-			emitGrant(pending[0])
-			pending = pending[1:]
+		login := func() {
+			var ps []pair
+			for u := 0; u < nu; u++ {
+				for k := 1; k <= nk; k++ {
+					if len(stored[pair{users[u], k}]) > 0 {
+						ps = append(ps, pair{users[u], k})
+					}
+				}
+			}
+			p := pair{users[g.R.Intn(nu+1)%len(users)], 1 + g.R.Intn(nk+1)}
+			if len(ps) > 0 && g.R.Chance(4, 5) {
+				p = ps[g.R.Intn(len(ps))]
+			}
+			g.Op("login %s %d", HexOrDash([]byte(p.user)), p.key)
+			if len(stored[p]) > 0 {
+				sessGrants = append(sessGrants, stored[p])
+				delete(stored, p)
+			}
+		}
+		ng := 1 + g.R.Intn(6)
+		if g.R.Chance(1, 25) {
+			ng = 0
+		}
+		left := ng
+		for left > 0 && g.R.Chance(5, 6) {
+			newGrant()
+			left--
 		}
 		nreq := 1 + g.R.Intn(10)
 		for r := 0; r < nreq; r++ {
-			switch x := g.R.Intn(12); {
-			case x < 2:
-				g.Op("login %s %d", HexOrDash([]byte(users[g.R.Intn(nu+1)%len(users)])), 1+g.R.Intn(nk+1))
-				nsess++ // an upper bound; refused logins create none
-			case x == 2 && len(pending) > 0:
-				emitGrant(pending[0])
-				pending = pending[1:]
-			case x == 3:
+			switch x := g.R.Intn(14); {
+			case x == 0 && (len(stored) > 0 || g.R.Chance(1, 4)), len(sessGrants) == 0 && (len(stored) > 0 || x < 3):
+				login()
+			case x == 1 && left > 0:
+				newGrant()
+				left--
+			case x == 2:
 				g.Op("dump")
-			case x == 4 && g.R.Chance(1, 3):
+			case x == 3 && g.R.Chance(1, 2):
 				g.Op("loginkey %s %d", HexOrDash([]byte(users[g.R.Intn(nu)])), 1+g.R.Intn(nk))
-				nsess++
-			case x == 5 && g.R.Chance(1, 2):
+				sessGrants = append(sessGrants, nil)
+			case x == 4 && g.R.Chance(1, 2):
 				ex := Pick(g.R, []uint64{0, 1000, 1499999999, 1500000000, 3000000000, 3000000001, 1 << 39})
-				g.Op("intent %d %d %d %s %d", g.R.Intn(nsess+1), Pick(g.R, []int{0, 1, 2, 3, 4, 5, 6}), ex,
+				g.Op("intent %d %d %d %s %d", g.R.Intn(len(sessGrants)+1), Pick(g.R, []int{0, 1, 2, 3, 4, 5, 6}), ex,
 					HexOrDash([]byte(users[g.R.Intn(nu+1)%len(users)])), Pick(g.R, []int{1, 1, 1, 0}))
 			default:
-				if nsess == 0 {
-					g.Op("login %s %d", HexOrDash([]byte(users[g.R.Intn(nu)])), 1+g.R.Intn(nk))
-					nsess++
+				// a request aimed at one of the session's grants: its own command or a near miss, at a
+				// clock on one of the boundaries start-1, start, start+1, exp-1, exp, exp+1 (and sub-second)
+				if len(sessGrants) == 0 && g.R.Chance(4, 5) {
+					login()
 					continue
 				}
-				// a request aimed at one of the grants: its own command or a near miss, at a clock on
-				// one of the boundaries start-1, start, start+1, exp-1, exp, exp+1 (and sub-second)
+				si := g.R.Intn(len(sessGrants) + 1)
+				if len(sessGrants) > 0 && g.R.Chance(9, 10) {
+					si = g.R.Intn(len(sessGrants))
+				}
 				var sec, nsec uint64
 				cmd, shell := cmds[g.R.Intn(len(cmds))], 0
-				if len(grants) > 0 {
-					gg := grants[g.R.Intn(len(grants))]
+				var pool []genGrant
+				if si < len(sessGrants) {
+					pool = sessGrants[si]
+				}
+				if len(pool) > 0 {
+					gg := pool[g.R.Intn(len(pool))]
 					edge := gg.start
 					if g.R.Chance(1, 2) {
 						edge = gg.exp
 					}
 					sec = edge + uint64(g.R.Intn(3)) - 1
-					if g.R.Chance(1, 4) {
+					if g.R.Chance(1, 3) {
 						sec = (gg.start + gg.exp) / 2
 					}
 					if g.R.Chance(1, 4) {
@@ -448,7 +482,7 @@ func genState(g *GenCtx) {
 				if g.R.Chance(1, 10) {
 					shell = 1 - shell
 				}
-				g.Op("exec %d %d %d %s %d", g.R.Intn(nsess+1)%max(nsess, 1), sec, nsec, HexOrDash([]byte(cmd)), shell)
+				g.Op("exec %d %d %d %s %d", si, sec, nsec, HexOrDash([]byte(cmd)), shell)
 			}
 		}
 		g.Op("dump")
